@@ -2,5 +2,5 @@
 # run every property check through ./check (verdict store on) and print the summary lines
 tier=${1:-quick}
 for p in C01 C02 C03 C04 C05 C06 C07 C08 C09 C10 C11 C12 C13 C14 C15 C16 C17 C18 C19; do
-  VERIF_EVIDENCE_DIR=${VERIF_EVIDENCE_DIR:-/verif/evidence} /verif/check $p $tier 2>&1 | grep -a "FAILED\|^govc\|UNDEC\|VIOLATION\|^bounded" | cut -c1-220
+  VERIF_EVIDENCE_DIR=${VERIF_EVIDENCE_DIR:-/verif/evidence} /verif/check $p $tier 2>&1 
 done
